@@ -191,6 +191,22 @@ def run_op(line, env):
             x = Synth.replace(tgt, name, args, same)
             env['nodes'].append(x)
             return f'ok n{x.node_id}'
+        if op in ('groupc', 'pgroupc', 'synthc'):
+            # the convenience constructors after/before/head/tail/replace of the receiver class
+            kind = p.tok()
+            cls = {'groupc': Group, 'pgroupc': ParGroup, 'synthc': Synth}[op]
+            if op == 'synthc':
+                name = p.tok(); tgt = p.value(); args = p.value()
+                x = getattr(cls, kind)(tgt, name, args)
+            else:
+                tgt = p.value()
+                x = getattr(cls, kind)(tgt)
+            env['nodes'].append(x)
+            return f'ok n{x.node_id}' + ('' if type(x) is cls else f' !class:{type(x).__name__}')
+        if op == 'badmsg':
+            # a message the encoder refuses (a list argument that is neither a message nor a bundle)
+            s.addr.send_msg('/c17_bad', [1.5, 2])
+            return 'ok'
         if op in ('group', 'pgroup'):
             tgt = p.value(); act = p.value()
             x = (Group if op == 'group' else ParGroup)(tgt, act)
